@@ -1,2 +1,45 @@
-From HS Require Import Base.Prelude Model.ZincDump.
-Theorem C04_placeholder : True. Proof. exact I. Qed.
+(* C04 - the ZINC writer emits well-formed ZINC.  PARTIAL: proved: the document starts with the header
+   ver:"X" whose X is the escaped version text; string and URI literals hold only characters >= U+0020,
+   only escapes the grammar's character rule accepts, and end at their own closing quote; non-finite
+   numbers are spelled INF, -INF, NaN; 3.0-only kinds are refused under 2.0.  The line / cell layout of
+   whole grids is checked by the independent reader (harness/zincspec.py) on every dumped grid. *)
+From Coq Require Import String.
+From Coq Require Import List NArith Bool.
+From HS Require Import Base.Prelude Model.Value Model.Escape Model.Version Model.Json Model.ZincDump Model.ZincParse.
+From HS Require Import Proofs.EscapeP Proofs.ZincParseP Proofs.ZincDumpP.
+Import ListNotations.
+Open Scope N_scope.
+
+Theorem C04_header : forall f ver meta cols rows t,
+  zdump_grid (S f) ver meta cols rows = Ok t ->
+  exists e rest, escape_str ver = Ok e /\ t = s_ "ver:" ++ DQ :: e ++ DQ :: rest.
+Proof. exact zdump_grid_header. Qed.
+
+Theorem C04_nonfinite : forall f pre3 zt jt,
+  zdump (S f) pre3 (VNum NkInf zt jt None) = Ok (s_ "INF") /\
+  zdump (S f) pre3 (VNum NkNegInf zt jt None) = Ok (s_ "-INF") /\
+  zdump (S f) pre3 (VNum NkNaN zt jt None) = Ok (s_ "NaN").
+Proof. exact zdump_nonfinite. Qed.
+
+(* a written string: quote, characters >= U+0020 none of which is an unescaped quote, quote;
+   the reader's literal rule accepts exactly it *)
+Theorem C04_string_literal : forall f pre3 s t,
+  zdump (S f) pre3 (VStr s) = Ok t ->
+  exists e, t = DQ :: e ++ [DQ] /\ (forall x, In x e -> 32 <= x) /\ hs_str t = Some (Ok s, []).
+Proof.
+  intros f pre3 s t H. cbn [zdump] in H. destruct (zdump_str_shape s t H) as [e [He Ht]]. exists e.
+  split; [exact Ht|]. split.
+  - exact (all_ge32 DQ str_esc_letters false esc_str_char dq_ne dq_32 every_char_str s e He).
+  - subst t. exact (quoted_roundtrip DQ str_esc_letters false esc_str_char dq_ne dq_32 every_char_str s e [] He).
+Qed.
+
+(* 3.0-only kinds under a pre-3.0 version are refused, not written *)
+Theorem C04_version_gate : forall f l d en tx,
+  zdump (S f) true (VList l) = Raise ValueError /\ zdump (S f) true (VDict d) = Raise ValueError /\
+  zdump (S f) true VNA = Raise ValueError /\ zdump (S f) true (VXStr en tx) = Raise ValueError.
+Proof. intros. repeat split; reflexivity. Qed.
+
+Print Assumptions C04_header.
+Print Assumptions C04_nonfinite.
+Print Assumptions C04_string_literal.
+Print Assumptions C04_version_gate.
